@@ -11,7 +11,8 @@ Inductive spc := SIdle | SWaiting | SReturned.
 
 Inductive rev :=
 | EvStart | EvFnStart (idx : Z) | EvFnEnd | EvRestart | EvStopCalled | EvStopReturned | EvCancel | EvTick (idx : Z) | EvTimer
-| EvSched (idx : Z).          (* ghost: schedule idx was (re)started: new ticker, new timer *)
+| EvSched (idx : Z)           (* ghost: schedule idx was (re)started: new ticker, new timer *)
+| EvFirst | EvNext.           (* the goroutine is about to call startFirst / startNext *)
 
 Record rstate := {
   r_len : Z;                 (* number of schedules, >= 1 *)
@@ -90,10 +91,11 @@ Definition rstep (fixed : bool) (s : rstate) (l : rlabel) : option rstate :=
             r_timer_ready := r_timer_ready s; r_restart_buf := r_restart_buf s; r_cancelled := true;
             r_g := r_g s; r_stop := r_stop s; r_trace := EvCancel :: r_trace s |}
   | LEnvTick =>
-    (* tickers exist from New() on, but nobody reads them before Start; a stopped ticker (after exit) does not tick *)
+    (* tickers exist from New() on, but nobody reads them before Start; a stopped ticker (after exit) does not
+       tick; premise: the one-hour placeholder ticker of New() does not tick before the first schedule starts *)
     match r_g s with
     | GExited => None
-    | _ => if r_tick_ready s then None
+    | _ => if r_tick_ready s || (r_idx s <? 0) then None
            else Some {| r_len := r_len s; r_idx := r_idx s; r_tick_ready := true; r_timer_armed := r_timer_armed s;
                         r_timer_ready := r_timer_ready s; r_restart_buf := r_restart_buf s; r_cancelled := r_cancelled s;
                         r_g := r_g s; r_stop := r_stop s; r_trace := EvTick (r_idx s) :: r_trace s |}
@@ -113,7 +115,7 @@ Definition rstep (fixed : bool) (s : rstate) (l : rlabel) : option rstate :=
                  then Some (sched_start {| r_len := r_len s; r_idx := r_idx s; r_tick_ready := r_tick_ready s;
                                            r_timer_armed := r_timer_armed s; r_timer_ready := r_timer_ready s;
                                            r_restart_buf := false; r_cancelled := r_cancelled s; r_g := r_g s;
-                                           r_stop := r_stop s; r_trace := r_trace s |} 0 [])
+                                           r_stop := r_stop s; r_trace := EvFirst :: r_trace s |} 0 [])
                  else None
     | _ => None
     end
@@ -123,7 +125,7 @@ Definition rstep (fixed : bool) (s : rstate) (l : rlabel) : option rstate :=
                  then Some (sched_start {| r_len := r_len s; r_idx := r_idx s; r_tick_ready := r_tick_ready s;
                                            r_timer_armed := r_timer_armed s; r_timer_ready := false;
                                            r_restart_buf := r_restart_buf s; r_cancelled := r_cancelled s; r_g := r_g s;
-                                           r_stop := r_stop s; r_trace := r_trace s |} (r_idx s + 1) [])
+                                           r_stop := r_stop s; r_trace := EvNext :: r_trace s |} (r_idx s + 1) [])
                  else None
     | _ => None
     end
@@ -191,33 +193,42 @@ Fixpoint after_stop_returned (tr : list rev) : list rev :=
 
 (* A trace of visible events as logged by the harness (oldest first):
    0 Start, 1 FnStart k (k = index of the schedule whose frequency was passed),
-   2 FnEnd, 3 Restart (returned), 4 StopCalled, 5 StopReturned, 6 Cancel.
-   Admissible iff: nothing before Start; FnStart/FnEnd alternate; schedule
-   indices only grow by steps of one... (the timer between two invocations may
-   have fired any number of times) ... or fall back to 0 after a Restart; no
-   function event after StopReturned. *)
-Inductive vev := VStart | VFnStart (k : Z) | VFnEnd | VRestart | VStopCalled | VStopReturned | VCancel.
+   2 FnEnd, 3 Restart (about to be called), 4 StopCalled, 5 StopReturned, 6 Cancel,
+   7 the goroutine is about to call startFirst, 8 ... startNext (both from hooks in the
+   sources instrumented from the working tree).
+   The checker tracks the active schedule exactly: a function start must carry the index
+   of the schedule that is active at that moment; nothing of the goroutine happens before
+   Start or after StopReturned; FnStart/FnEnd alternate. *)
+Inductive vev := VStart | VFnStart (k : Z) | VFnEnd | VRestart | VStopCalled | VStopReturned | VCancel | VFirst | VNext.
 
-Record chk := { k_started : bool; k_infn : bool; k_min : Z; k_restart : bool; k_stopped : bool; k_len : Z }.
+Record chk := { k_started : bool; k_infn : bool; k_idx : Z; k_stopped : bool; k_len : Z }.
+
+Definition chk_at_select (c : chk) : bool := k_started c && negb (k_infn c) && negb (k_stopped c).
 
 Definition chk_step (c : chk) (e : vev) : option chk :=
   match e with
   | VStart => if k_started c then None
-              else Some {| k_started := true; k_infn := false; k_min := k_min c; k_restart := k_restart c; k_stopped := false; k_len := k_len c |}
+              else Some {| k_started := true; k_infn := false; k_idx := k_idx c; k_stopped := k_stopped c; k_len := k_len c |}
   | VFnStart k =>
-    if negb (k_started c) || k_infn c || k_stopped c then None
-    else if (0 <=? k) && (k <? k_len c) && ((k_min c <=? k) || k_restart c)
-         then Some {| k_started := true; k_infn := true;
-                      k_min := (if k_min c <=? k then (if k_restart c then 0 else k) else k);
-                      k_restart := k_restart c && (k_min c <=? k); k_stopped := false; k_len := k_len c |}
-         else None
+    if chk_at_select c && (k =? k_idx c) && (0 <=? k) && (k <? k_len c)
+    then Some {| k_started := true; k_infn := true; k_idx := k_idx c; k_stopped := false; k_len := k_len c |}
+    else None
   | VFnEnd => if k_infn c && negb (k_stopped c)
-              then Some {| k_started := k_started c; k_infn := false; k_min := k_min c; k_restart := k_restart c; k_stopped := false; k_len := k_len c |}
+              then Some {| k_started := k_started c; k_infn := false; k_idx := k_idx c; k_stopped := false; k_len := k_len c |}
               else None
-  | VRestart => Some {| k_started := k_started c; k_infn := k_infn c; k_min := k_min c; k_restart := true; k_stopped := k_stopped c; k_len := k_len c |}
+  | VFirst => if chk_at_select c
+              then Some {| k_started := true; k_infn := false; k_idx := (if k_len c <=? 0 then k_idx c else 0);
+                           k_stopped := false; k_len := k_len c |}
+              else None
+  | VNext => if chk_at_select c
+             then Some {| k_started := true; k_infn := false;
+                          k_idx := (if k_len c <=? k_idx c + 1 then k_idx c else k_idx c + 1);
+                          k_stopped := false; k_len := k_len c |}
+             else None
+  | VRestart => Some c
   | VStopCalled => Some c
   | VStopReturned => if k_infn c then None
-                     else Some {| k_started := k_started c; k_infn := false; k_min := k_min c; k_restart := k_restart c; k_stopped := true; k_len := k_len c |}
+                     else Some {| k_started := k_started c; k_infn := false; k_idx := k_idx c; k_stopped := true; k_len := k_len c |}
   | VCancel => Some c
   end.
 
@@ -227,8 +238,23 @@ Fixpoint chk_run (c : chk) (tr : list vev) : bool :=
   | e :: r => match chk_step c e with Some c' => chk_run c' r | None => false end
   end.
 
-Definition runner_trace_ok (len : Z) (tr : list vev) : bool :=
-  chk_run {| k_started := false; k_infn := false; k_min := 0; k_restart := false; k_stopped := false; k_len := len |} tr.
+Definition chk_init (len : Z) : chk :=
+  {| k_started := false; k_infn := false; k_idx := -1; k_stopped := false; k_len := len |}.
+
+Definition runner_trace_ok (len : Z) (tr : list vev) : bool := chk_run (chk_init len) tr.
+
+(* what of the model's ghost trace the harness can see *)
+Definition visible (e : rev) : option vev :=
+  match e with
+  | EvStart => Some VStart | EvFnStart k => Some (VFnStart k) | EvFnEnd => Some VFnEnd | EvRestart => Some VRestart
+  | EvStopCalled => Some VStopCalled | EvStopReturned => Some VStopReturned | EvCancel => Some VCancel
+  | EvFirst => Some VFirst | EvNext => Some VNext
+  | EvTick _ | EvTimer | EvSched _ => None
+  end.
+
+(* oldest first *)
+Definition visible_trace (tr : list rev) : list vev :=
+  flat_map (fun e => match visible e with Some v => [v] | None => [] end) (List.rev tr).
 
 (* Timed consequence of C18_tick_of_active_schedule under "timers and tickers never fire
    early". Times are relative to an instant just before New() (which arms the first start-delay
